@@ -18,7 +18,7 @@ def main():
     if a.list:
         import importlib
         mod = importlib.import_module('harness.' + a.prop.lower())
-        for o in mod.obligations(a.tier):
+        for o in runner.all_obligations(mod, a.tier):
             print(o.name, '|', o.bounds)
         return 0
     seed = int(os.environ.get('VERIF_SEED', '0') or 0)
